@@ -7,6 +7,7 @@ import (
 	"fmt"
 	"os"
 	"path/filepath"
+	"runtime/debug"
 	"sort"
 	"strings"
 	"sync"
@@ -368,7 +369,7 @@ func explore(P *Program, fn *ssa.Function, opts ExploreOpts) *HarnessResult {
 					stop = true
 					mu.Unlock()
 					cond.Broadcast()
-					fmt.Fprintf(os.Stderr, "worker panic in %s: %v\n", fn.Name(), r)
+					fmt.Fprintf(os.Stderr, "worker panic in %s: %v\n%s\n", fn.Name(), r, debug.Stack())
 				}
 			}()
 			workerFn(i)
